@@ -89,12 +89,28 @@ def api_part(c):
             for v in (N_, N_ + 1, N_ + 5, (N_ + P_) // 2, P_ - 1, P_, P_ + 1, 2 ** 256 - 2, 0, N_ - 1):
                 for order in ("little", "big"):
                     lines.append({"op": op, "seed": 23, "failat": 0, "reps": 1, "edge": v.to_bytes(32, order).hex(), "_edge": "%s%+d:%s" % ((("n", v - N_) if abs(v - N_) < 10 else ("p", v - P_) if abs(v - P_) < 10 else ("v", v % 1000)) + (order,))}); owner.append(op)
+    # a source that stays down from some draw on, whatever reason it gives (EINTR = 4, EAGAIN = 11, EIO = 5, ENOSYS = 38): an operation that needs that draw fails
+    # -- a bounded retry on "interrupted" must end in failure, not in success with a buffer nobody filled
+    for op in ndraws:
+        n = ndraws[op]
+        if n < 1:
+            continue
+        for err in (4, 11, 5, 38):
+            for ff in sorted({1, n}):
+                lines.append({"op": op, "seed": 11, "failat": 0, "reps": 1, "failfrom": ff, "errno": err, "_edge": "down-from-%d-errno%d" % (ff, err)}); owner.append(op)
     # persistent contexts: a history of 70 signatures with the source failing at each draw index of the first three nonce batches
     for op in PERSIST:
         ndraws[op] = 0
         for fa in [0] + (list(range(1, 100)) if not c.quick else list(range(30, 70)) + [1, 2, 96]):
             lines.append({"op": op, "seed": 31, "failat": fa, "reps": 70}); owner.append(op)
-    res = CL.run_script("entdrv", ["entdrv.c", "vh.c"], lines, tag="c18b", procs=1 if len(lines) < 50 else 12)
+    # (lines with a source that stays down run on their own with a short time limit: an operation that spins on such a source is reported, not waited for)
+    down = [i for i, ln in enumerate(lines) if ln.get("failfrom")]
+    rest = [i for i, ln in enumerate(lines) if not ln.get("failfrom")]
+    res = [None] * len(lines)
+    for i, r in zip(rest, CL.run_script("entdrv", ["entdrv.c", "vh.c"], [lines[i] for i in rest], tag="c18b", procs=1 if len(rest) < 50 else 12)):
+        res[i] = r
+    for i, r in zip(down, CL.run_script("entdrv", ["entdrv.c", "vh.c"], [lines[i] for i in down], tag="c18d", procs=16, timeout=10)):
+        res[i] = r
     per_op = {}
     for (case, evs, san), op in zip(res, owner):
         key = "c18:%s:seed%s:failat%s:reps%s%s%s" % (op, case["seed"], case["failat"], case["reps"], ":high%s" % case["high"] if case.get("high") else "", ":edge=%s" % case["_edge"] if case.get("_edge") else "")
@@ -104,13 +120,13 @@ def api_part(c):
             continue
         for e in evs:
             if e["e"] == "OpEnd":
-                e["failat"] = case["failat"]
+                e["failat"] = case["failat"] or case.get("failfrom", 0)
                 e["nonceop"] = 1 if (op in NONCE_OPS and e["rc"] == 1 and (case["reps"] <= 4)) else 0
                 e["nsrc"] = nonce_source(e) if e["nonceop"] else 0
                 e.pop("cand", None)
                 if e["nonceop"]:
                     c.cov["nonce_source_checked"] = c.cov.get("nonce_source_checked", 0) + 1
-        if case.get("high") or case.get("edge"):
+        if case.get("high") or case.get("edge") or case.get("failfrom"):
             evs = [{"e": "Group"}] + evs            # its own stream history: the comparison with other runs of the same seed does not apply
         per_op.setdefault(op, [{"e": "Group"}]).extend(evs)
     return [("c18:api:" + op, evs) for op, evs in per_op.items()]
